@@ -232,6 +232,7 @@ def object_case(c):
            'consts': [float(getattr(const, nm)) for nm in CONST_NAMES], 'runs': [],
            'hmin': float(np.min(np.diff(bs[3].breaks)))}
     w = float(pts[-1] - pts[0])
+    prev_shift = None
     for t in range(c['nruns']):
         cls = SHIFT[(c['k'] + t) % len(SHIFT)]
         sgn = rng.choice([-1, 1])
@@ -240,6 +241,12 @@ def object_case(c):
                  'to-boundary': float(pts[rng.randrange(1, n - 1)] - rng.choice([pts[0], pts[-1]])),
                  'node-to-node': float(pts[rng.randrange(n)] - pts[rng.randrange(n)]),
                  'beyond-domain': sgn * w * rng.uniform(1.05, 5.9), 'exact-widths': sgn * w * rng.randint(1, 3)}[cls]
+        if t % 3 == 2 and prev_shift is not None:
+            # a line whose shift is almost, but not exactly, the shift of the line before it (neighbouring lines of a smooth
+            # potential; the tiny speeds of the linear phase): nothing computed for the previous line may be reused
+            cls = 'almost-previous'
+            shift = prev_shift * (1.0 + 2.0e-6) if prev_shift != 0.0 else 3.0e-9
+        prev_shift = shift
         dt = rng.choice([2.0, 0.5, -1.0, 0.3])
         cc = shift / dt
         r = float(rng.choice(eta[0]))
@@ -388,7 +395,8 @@ def run():
             chk.cov['disagreements_checked'] += 1
             chk.violation('%s:model-mismatch:mode-%d:%s' % (site, c['bound'], c['cls']),
                           'exact output of the code differs from the model: %s / %s' % (impl[:100], m[:100]), replay,
-                          no_input=(c['op'] != 'feq' and impl.startswith('ok')))
+                          no_input=((c['op'] != 'feq' and impl.startswith('ok')) or
+                                    (impl.startswith('exc') and ('SimpleNamespace' in impl or 'Fraction' in impl or '<lambda>' in impl))))
     # ---- stated guard: vMax <= vMin in periodic mode
     dcases = [{'v': F(-1), 'vMin': F(0), 'vMax': F(0), 'knots': [F(0), F(1), F(1, 4), F(4)], 'coeffs': [F(1)] * 7},
               {'v': F(-3), 'vMin': F(1), 'vMax': F(-1), 'knots': [F(-1), F(1), F(1, 2), F(4)], 'coeffs': [F(1)] * 7}]
